@@ -120,7 +120,6 @@ __CPROVER_ensures(__CPROVER_return_value == RB_WORDS(e->type))
 ;
 
 /* ---- ghost record: expected outcomes computed by the spec functions ---- */
-
 struct rb_ghost {
   /* the table description as handed to the function under proof */
   uint32_t na, ne;                  /* positions of the list terminators */
@@ -128,62 +127,24 @@ struct rb_ghost {
   const RegisterEntry *entry0;      /* snapshot of the register list before the call */
   /* C04 */
   struct rb_init_expect init;       /* rb_spec_first_violation(description) */
-  uint16_t init_word;               /* rb_spec_init_word(description, g_a, g_k) */
 };
 extern struct rb_ghost g_rb;
 
-/* ---- table well-formedness = what register_init establishes (C04) and
- * what block access and iteration rely on (C02, C03); stated per index */
-#if VERIF_IS_NATIVE
-#define RB_SAME_OBJECT(p, q) 1
-#else
-#define RB_SAME_OBJECT(p, q) __CPROVER_same_object(p, q)
-#endif
 #define RB_INITIALISED(t) (((t)->flags & REG_TF_INITIALISED) != 0)
-#define RB_AI(t, e) ((size_t)((e)->area - (t)->area))
-#define RB_WF_AREA(t, i) IMPLIES((i) < (t)->areas, \
-    (t)->area[i].size >= 1 && RB_A_NOWRAP(&(t)->area[i]) \
-    && IMPLIES((i) + 1 < (t)->areas, RB_A_END(&(t)->area[i]) <= RB_M64((t)->area[(i) + 1].base)))
-#define RB_WF_ENTRY(t, j) IMPLIES((j) < (t)->entries, \
-    RB_TYPE_IS_VALUE((t)->entry[j].type) && RB_E_NOWRAP(&(t)->entry[j]) \
-    && IMPLIES((j) + 1 < (t)->entries, RB_E_END(&(t)->entry[j]) <= RB_M64((t)->entry[(j) + 1].address)) \
-    && RB_SAME_OBJECT((t)->entry[j].area, (t)->area) \
-    && RB_AI(t, &(t)->entry[j]) < (t)->areas \
-    && (t)->entry[j].area == &(t)->area[RB_AI(t, &(t)->entry[j])] \
-    && RB_E_INSIDE(&(t)->entry[j], (t)->entry[j].area) \
-    && (t)->entry[j].offset == (t)->entry[j].address - (t)->entry[j].area->base)
-/* area i records exactly the contiguous run of registers located in it */
-#define RB_WF_RUN(t, i, j) (IMPLIES((i) < (t)->areas && (j) < (t)->entries, \
-      ((t)->entry[j].area == &(t)->area[i]) \
-      == ((t)->area[i].entry.count > 0 && (t)->area[i].entry.first <= (j) && (j) <= (t)->area[i].entry.last)) \
-    && IMPLIES((i) < (t)->areas && (t)->area[i].entry.count > 0, \
-      (t)->area[i].entry.first <= (t)->area[i].entry.last && (t)->area[i].entry.last < (t)->entries \
-      && (t)->area[i].entry.count == (t)->area[i].entry.last - (t)->area[i].entry.first + 1u))
+#define RB_BE(t) (((t)->flags & REG_TF_BIG_ENDIAN) != 0)
 
 /* ---- C04: register_init ------------------------------------------------
  * Statement: succeeds exactly for the well-formed descriptions, otherwise
  * names the first violated rule and its offender (g_rb.init, computed by
  * rb_spec_first_violation) and leaves the table uninitialised; after success
- * the table is well-formed, every word of a memory-backed area is the image
- * word of the default located there (areas that load defaults) or zero, each
- * area records its run of registers, and the description itself is unchanged.
- * Enforce-only: g_rb is filled by the harness from the spec functions. */
-#define RB_CLA(i) ((i) < g_rb.na ? (i) : 0)
-#define RB_CLE(j) ((j) < g_rb.ne ? (j) : 0)
-#define RB_CLA1(i) ((i) <= g_rb.na ? (i) : 0)
-#define RB_CLE1(j) ((j) <= g_rb.ne ? (j) : 0)
+ * the table is well-formed (rb_table_wf: every area records exactly its run of
+ * registers), every word of a memory-backed area is the image word of the
+ * default located there (areas that load defaults) or zero, and the
+ * description itself is unchanged.  The clauses are spec FUNCTIONS with
+ * constant-bounded loops over the table dimension (tier B); g_rb is filled by
+ * the harness from the spec functions (enforce-only contract). */
 #define RB_ASSIGN_MEM(t, i) \
     (i) < g_rb.na && (t)->area[i].mem != NULL: __CPROVER_object_upto((t)->area[i].mem, (t)->area[i].size * sizeof(RegisterAtom))
-#define RB_INIT_IS_AREA_CODE(c) ((c) == REG_INIT_NO_AREAS || (c) == REG_INIT_AREA_INVALID_ORDER || (c) == REG_INIT_AREA_ADDRESS_OVERLAP)
-#define RB_INIT_IS_ENTRY_CODE(c) ((c) == REG_INIT_ENTRY_INVALID_ORDER || (c) == REG_INIT_ENTRY_ADDRESS_OVERLAP \
-    || (c) == REG_INIT_ENTRY_IN_MEMORY_HOLE || (c) == REG_INIT_ENTRY_INVALID_DEFAULT)
-#define RB_AREA_DESC_SAME(a, b) ((a)->read == (b)->read && (a)->write == (b)->write && (a)->flags == (b)->flags \
-    && (a)->base == (b)->base && (a)->size == (b)->size && (a)->mem == (b)->mem)
-#define RB_ENTRY_DESC_SAME(a, b) ((a)->type == (b)->type && (a)->default_value.u64 == (b)->default_value.u64 \
-    && (a)->address == (b)->address && (a)->check.type == (b)->check.type \
-    && (a)->check.arg.range.min.u64 == (b)->check.arg.range.min.u64 \
-    && (a)->check.arg.range.max.u64 == (b)->check.arg.range.max.u64 \
-    && (a)->name == (b)->name && (a)->flags == (b)->flags && (a)->user == (b)->user)
 
 RegisterInit register_init(RegisterTable *t)
 __CPROVER_requires(__CPROVER_rw_ok(t, sizeof(RegisterTable)) && t->area != NULL && t->entry != NULL)
@@ -195,27 +156,21 @@ __CPROVER_assigns(t->flags, t->areas, t->entries, st_wr_verdict;
     g_rb.na > 0: __CPROVER_object_upto(t->area, g_rb.na * sizeof(RegisterArea));
     g_rb.ne > 0: __CPROVER_object_upto(t->entry, g_rb.ne * sizeof(RegisterEntry));
     RB_ASSIGN_MEM(t, 0); RB_ASSIGN_MEM(t, 1); RB_ASSIGN_MEM(t, 2); RB_ASSIGN_MEM(t, 3); RB_ASSIGN_MEM(t, 4); RB_ASSIGN_MEM(t, 5))
-/* verdict */
-__CPROVER_ensures(__CPROVER_return_value.code == g_rb.init.code)
-__CPROVER_ensures(IMPLIES(RB_INIT_IS_AREA_CODE(g_rb.init.code), __CPROVER_return_value.pos.area == g_rb.init.index))
-__CPROVER_ensures(IMPLIES(RB_INIT_IS_ENTRY_CODE(g_rb.init.code), __CPROVER_return_value.pos.entry == g_rb.init.index))
+/* verdict: the first violated rule and its offender, or success */
+__CPROVER_ensures(rb_init_verdict_ok(__CPROVER_return_value, g_rb.init))
 /* failure: the table stays uninitialised */
 __CPROVER_ensures(IMPLIES(g_rb.init.code != REG_INIT_SUCCESS, !RB_INITIALISED(t)))
-/* success: initialised, dimensions recorded, byte order kept, init phase over */
+/* success: initialised, dimensions recorded, init phase over */
 __CPROVER_ensures(IMPLIES(g_rb.init.code == REG_INIT_SUCCESS,
     RB_INITIALISED(t) && (t->flags & REG_TF_DURING_INIT) == 0 && t->areas == g_rb.na && t->entries == g_rb.ne))
-__CPROVER_ensures((t->flags & REG_TF_BIG_ENDIAN) == (__CPROVER_old(t->flags) & REG_TF_BIG_ENDIAN))
+/* byte order kept, lists not re-seated, description unchanged */
+__CPROVER_ensures(RB_BE(t) == ((__CPROVER_old(t->flags) & REG_TF_BIG_ENDIAN) != 0))
 __CPROVER_ensures(t->area == __CPROVER_old(t->area) && t->entry == __CPROVER_old(t->entry))
-/* the description is unchanged (ghost area g_a, ghost register g_j) */
-__CPROVER_ensures(RB_AREA_DESC_SAME(&t->area[RB_CLA1(g_a)], &g_rb.area0[RB_CLA1(g_a)]))
-__CPROVER_ensures(RB_ENTRY_DESC_SAME(&t->entry[RB_CLE1(g_j)], &g_rb.entry0[RB_CLE1(g_j)]))
+__CPROVER_ensures(rb_description_same(t, g_rb.area0, g_rb.na, g_rb.entry0, g_rb.ne))
 /* success: well-formed, each area records its run */
-__CPROVER_ensures(IMPLIES(g_rb.init.code == REG_INIT_SUCCESS,
-    RB_WF_AREA(t, RB_CLA(g_a)) && RB_WF_ENTRY(t, RB_CLE(g_j)) && RB_WF_RUN(t, RB_CLA(g_a), RB_CLE(g_j))))
+__CPROVER_ensures(IMPLIES(g_rb.init.code == REG_INIT_SUCCESS, rb_table_wf(t)))
 /* success: defaults loaded, everything else zero */
-__CPROVER_ensures(IMPLIES(g_rb.init.code == REG_INIT_SUCCESS && g_a < g_rb.na
-    && t->area[RB_CLA(g_a)].mem != NULL && g_k < t->area[RB_CLA(g_a)].size,
-    t->area[RB_CLA(g_a)].mem[g_k] == g_rb.init_word))
+__CPROVER_ensures(IMPLIES(g_rb.init.code == REG_INIT_SUCCESS, rb_init_words_ok(t, g_rb.na, g_rb.ne, RB_BE(t))))
 ;
 
 #endif
